@@ -43,14 +43,23 @@ theorem max_tries (cfg : Cfg) (rs : List Req) (st : St) (evs : List Ev)
     (tooMany cfg st = false → ∀ r more, loop cfg st (.req r :: more) =
       match step cfg (bump st) r with
       | .done e f => (e, f)
-      | .cont st' e => (e ++ (loop cfg st' more).1, (loop cfg st' more).2)) := by
+      | .cont st' e =>
+        -- a follow-up packet (keyboard-interactive answer, GSS token / MIC) that this request did not
+        -- read is read as the next request: the guards apply, then it fails to parse
+        if consumedBy (bump st) r < r.follow.length then
+          (if tooMany cfg st' then (e ++ [Ev.sendDisconnect], .authErr) else (e, .err))
+        else (e ++ (loop cfg st' more).1, (loop cfg st' more).2)) := by
   obtain ⟨c1, _, c3⟩ := counters_spec cfg rs st evs h
   refine ⟨by rw [tooMany_iff, c1, c3], ?_, ?_⟩
   · intro ht more
     cases more <;> simp [loop, ht]
   · intro ht r more
-    simp only [loop, ht, bump]
-    cases step cfg { st with attempts := st.attempts + 1 } r <;> simp
+    unfold bump
+    rw [loop]
+    simp only [ht, Bool.false_eq_true, if_false]
+    cases step cfg { st with attempts := st.attempts + 1 } r
+    · rfl
+    · rfl
 
 theorem steps_split {cfg : Cfg} {st st' : St} {a b : List Req} {evs : List Ev}
     (h : Steps cfg st (a ++ b) st' evs) :
@@ -59,9 +68,9 @@ theorem steps_split {cfg : Cfg} {st st' : St} {a b : List Req} {evs : List Ev}
   | nil => exact ⟨st, [], evs, Steps.nil st, h, rfl⟩
   | cons r a ih =>
     cases h with
-    | cons ht hs hrest =>
+    | cons ht hs hf hrest =>
       obtain ⟨st1, e1, e2, s1, s2, rfl⟩ := ih hrest
-      exact ⟨st1, _, e2, Steps.cons ht hs s1, s2, by simp⟩
+      exact ⟨st1, _, e2, Steps.cons ht hs hf s1, s2, by simp⟩
 
 /-- no request is read once a limit is reached: before every request of a history the guard was
     false, i.e. the failures logged so far were below the limit and fewer than 128 requests had been read -/
@@ -71,7 +80,7 @@ theorem below_limit_before (cfg : Cfg) (pre post : List Req) (r : Req) (st : St)
       ∀ n, limit cfg = some n → (countFailures e1).1 < n := by
   obtain ⟨st1, e1, e2, s1, s2, _⟩ := steps_split h
   cases s2 with
-  | cons ht _ _ =>
+  | cons ht _ _ _ =>
     obtain ⟨c1, _, c3⟩ := counters_spec cfg pre st1 e1 s1
     have hn : ¬ (tooMany cfg st1 = true) := by simp [ht]
     rw [tooMany_iff] at hn
